@@ -7,7 +7,7 @@ text, not from window.go.  Core Lean only.
 * placement: an accepted cell lands at the window's absolute origin plus the requested offset;
 * reading order: clusters are placed left to right, one cluster per cell write, the column
   advances by the cluster's display width, a new row starts at a line break or when the row is
-  full.
+  full — also when it is too full for the next cluster: no cluster extends beyond the window's row.
 -/
 import VaxisModel.Model.Window
 
@@ -51,6 +51,20 @@ def visible (win : Win) (s : Screen) (x y : Int) : Prop := covers win x y ∧ in
 
 instance (win : Win) (s : Screen) (x y : Int) : Decidable (visible win s x y) := by unfold visible; infer_instance
 
+/-- Every window of the chain ends, on the right, no further than its parent does (columns
+`[c, c+w)` of the child lie left of the parent's width).  `New` establishes it whatever its
+arguments; a struct literal with a `Parent` pointer need not ("the provided constructor methods are
+recommended as they will enforce size constraints", window.go). -/
+def rightNested : Win → Prop
+  | .root _ _ _ _ => True
+  | .child c _ w _ p => c + w ≤ p.width ∧ rightNested p
+
+instance decRightNested : (win : Win) → Decidable (rightNested win)
+  | .root c r w h => by unfold rightNested; infer_instance
+  | .child c r w h p => by
+      unfold rightNested
+      exact @instDecidableAnd _ _ _ (decRightNested p)
+
 /-! ### Reading-order layout -/
 
 /-- A cluster as the spec sees it: content, display width, "is a line break", style. -/
@@ -68,15 +82,24 @@ cells: advance by the width; when the row is full start the next row. -/
 def advance (cols : Int) (col row w : Int) : Int × Int :=
   if col + w ≥ cols then (0, row + 1) else (col + w, row)
 
-/-- Reading-order layout from pen position `(col,row)`: one write per non-break cluster. -/
+/-- Where a cluster of width `w` is written when the pen is at `(col,row)`: at the pen if it fits
+in the rest of the row, else at the start of the next row ("the row is full" for this cluster). -/
+def fitPen (cols : Int) (col row w : Int) : Int × Int :=
+  if col + w > cols then (0, row + 1) else (col, row)
+
+/-- Reading-order layout from pen position `(col,row)`: one write per non-break cluster; a cluster
+never extends beyond the row ("never write outside the window"): one that does not fit in the rest
+of the row starts the next row, one that is wider than a whole row is not written at all. -/
 def layout (cols : Int) : List Item → Int → Int → List Op × Int × Int
   | [], col, row => ([], col, row)
   | it :: rest, col, row =>
       if it.brk then layout cols rest 0 (row + 1)
+      else if col + it.w > cols ∧ it.w > cols then layout cols rest col row
       else
-        let p := advance cols col row it.w
+        let q := fitPen cols col row it.w
+        let p := advance cols q.1 q.2 it.w
         let r := layout cols rest p.1 p.2
-        ({ col := col, row := row, cell := it.cell } :: r.1, r.2)
+        ({ col := q.1, row := q.2, cell := it.cell } :: r.1, r.2)
 
 def totalW : List Item → Int
   | [] => 0
